@@ -891,7 +891,11 @@ def mutate_illformed(d, rng):
                 out.append(('unbound_var', with_items(items[:idx] + [('ruleset', rs[1], rs[2][:j] + [nr] + rs[2][j + 1:])] + items[idx + 1:])))
                 nr = ('rule', x[1], ('diff', ('chr', 97), ('cat', ('chr', 98), ('chr', 99))), x[3])
                 out.append(('diff_operand', with_items(items[:idx] + [('ruleset', rs[1], rs[2][:j] + [nr] + rs[2][j + 1:])] + items[idx + 1:])))
-        out.append(('dup_ruleset', with_items(items + [('ruleset', rs[1], [('rule', 'simple', ('chr', 97), None)])])))
+        for other in sets:
+            # every rule set name, `Init` included, duplicated at the end and right after itself
+            out.append(('dup_ruleset', with_items(items + [('ruleset', other[1], [('rule', 'simple', ('chr', 97), None)])])))
+            pos = items.index(other)
+            out.append(('dup_ruleset', with_items(items[:pos + 1] + [('ruleset', other[1], [('rule', 'simple', ('chr', 98), None)])] + items[pos + 1:])))
         out.append(('dup_var_local', with_items(items[:idx] + [('ruleset', rs[1], [('let', 'dv', ('chr', 97)), ('let', 'dv', ('chr', 98))] + rs[2])] + items[idx + 1:])))
         tl = [it for it in items if it[0] == 'let']
         if tl:
